@@ -609,6 +609,36 @@ theorem macro_body_skipped_copy_verbatim_reindent (ind : List Char) (ranges : Li
     exact absurd this (by decide)
   exact macro_body_skipped_copy_verbatim ind ranges c pre s post hne' hcr' hlast hm
 
+/-- From the call site to the macro body.  A skipped item is copied by a `visit_item` (or
+`visit_assoc_item`) call of the current source into the body formatter's buffer; whatever is pushed
+afterwards (`post`), whatever other ranges are recorded, whatever the arm's indentation and the
+configuration: the re-indented body contains the copy (`trim` of the item's span, attributes
+included for `visit_item`) byte for byte. -/
+theorem skipped_item_in_macro_body_verbatim (s : RF.Gen.SkipSites.Site)
+    (hs : s ∈ RF.Gen.SkipSites.sites) (hfn : s.fn = "visit_item" ∨ s.fn = "visit_assoc_item")
+    (span : String → Nat × Nat) {src : List Char} {st st' : State} {attrHis : List Nat}
+    {w : List Char} (h : siteRun s span src st attrHis w = some st') (hinv : st.Inv)
+    (ind : List Char) (ranges : List (Nat × Nat)) (c : Cfg) (post post' : List Char)
+    (hranges : ∀ r ∈ st'.skipped, r ∈ ranges)
+    (ht : RF.Skip.trimEnd (st'.buffer ++ post) = st'.buffer ++ post')
+    (hcr : '\r' ∉ st'.buffer ++ post) :
+    ∃ sn, snippet src (span s.itemSpan).1 (span s.itemSpan).2 = some sn ∧
+      (trim sn ≠ [] → ∃ u v, reindent ind ranges c (st'.buffer ++ post) = u ++ trim sn ++ v) := by
+  obtain ⟨sn, hsn, hbuf, hsk⟩ := skip_sites_item_range_whole s hs hfn span h hinv
+  refine ⟨sn, hsn, fun hne => ?_⟩
+  have hm : RF.Skip.outLines (st.buffer ++ w) (trim sn) ∈ ranges :=
+    hranges _ (by rw [hsk]; simp)
+  rw [hbuf] at ht
+  exact macro_body_skipped_copy_verbatim_reindent ind ranges c (st'.buffer ++ post)
+    (st.buffer ++ w) (trim sn) post' (by rw [hbuf]; exact ht) hne hcr hm
+
+example : ∃ s ∈ RF.Gen.SkipSites.sites, s.fn = "visit_item" ∧
+    ∃ st', siteRun s (fun _ => (3, 16)) "a;\n#[s]\nfn f(){}".toList ⟨"a;".toList, 2, 0, []⟩ [7] ['\n'] = some st' ∧
+      RF.Skip.trimEnd (st'.buffer ++ "\nfn g() {}\n".toList) = st'.buffer ++ "\nfn g() {}".toList ∧
+      '\r' ∉ st'.buffer ++ "\nfn g() {}\n".toList ∧ (∀ r ∈ st'.skipped, r ∈ [(2, 3)]) := by
+  refine ⟨⟨"src/visitor.rs", "visit_item", "attrs.as_slice()", "item.span()", "item.span()"⟩, by decide, rfl,
+    ⟨"a;\n#[s]\nfn f(){}".toList, 16, 2, [(2, 3)]⟩, by decide, by decide, by decide, by decide⟩
+
 /-- Non-vacuity, and the two theorems together on the shape of the seeded change's demo: the body
 holds a skipped `fn` with a second attribute line.  With the whole copy recorded, `(1, 3)`, the three
 lines are kept and the neighbour is indented. -/
